@@ -12,21 +12,36 @@ use deno_graph::Resolution;
 #[derive(Clone, Debug, PartialEq, Eq)]
 pub enum ResShape {
   None,
-  Ok(String),
-  Err(String),
+  /// (specifier, range as displayed)
+  Ok(String, String),
+  /// (variant name, text with range)
+  Err(String, String),
+}
+
+pub fn variant_name(dbg: &str) -> String {
+  dbg
+    .split(|c: char| !c.is_alphanumeric())
+    .next()
+    .unwrap_or("")
+    .to_string()
 }
 
 impl ResShape {
   pub fn of(r: &Resolution) -> ResShape {
     match r {
       Resolution::None => ResShape::None,
-      Resolution::Ok(x) => ResShape::Ok(x.specifier.to_string()),
-      Resolution::Err(e) => ResShape::Err(e.to_string()),
+      Resolution::Ok(x) => {
+        ResShape::Ok(x.specifier.to_string(), x.range.to_string())
+      }
+      Resolution::Err(e) => ResShape::Err(
+        variant_name(&format!("{:?}", e)),
+        e.to_string_with_range(),
+      ),
     }
   }
   pub fn ok(&self) -> Option<&str> {
     match self {
-      ResShape::Ok(s) => Some(s),
+      ResShape::Ok(s, _) => Some(s),
       _ => None,
     }
   }
@@ -45,6 +60,7 @@ pub struct DepShape {
 #[derive(Clone, Debug)]
 pub struct ModShape {
   pub kind: &'static str,
+  pub mt: deno_media_type::MediaType,
   pub media_type: String,
   pub deps: Vec<DepShape>,
   pub fc_deps: Option<Vec<DepShape>>,
@@ -63,6 +79,9 @@ pub enum SlotShape {
     at: String,
     referrer: Option<String>,
     is_missing: bool,
+    variant: String,
+    /// `maybe_referrer` as displayed
+    referrer_range: Option<String>,
   },
 }
 
@@ -135,6 +154,7 @@ pub fn shape_of(graph: &ModuleGraph) -> Shape {
       m.specifier().to_string(),
       SlotShape::Module(ModShape {
         kind: crate::observe::module_kind(m),
+        mt: m.media_type(),
         media_type: m.media_type().to_string(),
         deps: deps_of(m.dependencies()),
         fc_deps: fc,
@@ -143,52 +163,26 @@ pub fn shape_of(graph: &ModuleGraph) -> Shape {
       }),
     );
   }
-  // error slots: module_errors() gives errors but not their slot key; a slot's
-  // key is found through specifiers()
-  let redirect_sources: BTreeSet<String> = s.redirects.keys().cloned().collect();
-  for (spec, res) in graph.specifiers() {
+  // error slots: `specifiers()` lists real slots first (modules and errors in
+  // key order), then redirect sources
+  let n_slots = graph.modules().count() + graph.module_errors().count();
+  for (spec, res) in graph.specifiers().take(n_slots) {
     if let Err(e) = res {
-      let key = spec.to_string();
-      if redirect_sources.contains(&key) && s.slots.contains_key(&key) {
-        continue;
-      }
-      // specifiers() lists slot keys first, then redirect sources; keep the
-      // first (slot) occurrence
-      s.slots.entry(key).or_insert_with(|| SlotShape::Err {
-        text: e.to_string(),
-        with_range: e.to_string_with_range(),
-        at: e.specifier().to_string(),
-        referrer: e.maybe_referrer().map(|r| r.specifier.to_string()),
-        is_missing: matches!(
-          e.as_kind(),
-          deno_graph::ModuleErrorKind::Missing { .. }
-        ),
-      });
-    }
-  }
-  // redirect sources that point at error slots were inserted above under the
-  // redirect source key too; drop those that are pure redirect sources
-  let keys: Vec<String> = s.slots.keys().cloned().collect();
-  for k in keys {
-    if s.redirects.contains_key(&k) {
-      // a real slot and a redirect source cannot share a key unless the graph
-      // really has both; keep only if try_get on the key itself is the slot
-      let is_real_slot = deno_graph::ModuleSpecifier::parse(&k)
-        .ok()
-        .map(|u| {
-          graph
-            .specifiers()
-            .take(graph.specifiers_count())
-            .filter(|(s, _)| **s == u)
-            .count()
-            > 1
-        })
-        .unwrap_or(false);
-      if !is_real_slot {
-        if let Some(SlotShape::Err { .. }) = s.slots.get(&k) {
-          s.slots.remove(&k);
-        }
-      }
+      s.slots.insert(
+        spec.to_string(),
+        SlotShape::Err {
+          text: e.to_string(),
+          with_range: e.to_string_with_range(),
+          at: e.specifier().to_string(),
+          referrer: e.maybe_referrer().map(|r| r.specifier.to_string()),
+          is_missing: matches!(
+            e.as_kind(),
+            deno_graph::ModuleErrorKind::Missing { .. }
+          ),
+          variant: variant_name(&format!("{:?}", e.as_kind())),
+          referrer_range: e.maybe_referrer().map(|r| r.to_string()),
+        },
+      );
     }
   }
   s
